@@ -111,6 +111,12 @@ def run(ctx):
                 p[j] += rng.choice([1e-3, 0.1, 0.5])
             cases.append({"fn": "qspp", "poly": [hexf(x) for x in p], "signal_operator": rng.choice(["Wx", "Wz"]), "bits": [rng.randint(0, 1) for _ in range(8)],
                           "kind": kind, "expect": "documented", "timeout": 300, "site": "infeasible"})
+    # direct completion of Laurent lists with exactly-zero outer coefficients (roots at 0 / infinity), every reflection choice
+    for coefs in ([0.0, 0.0, 1.2], [0.0, 0.5, 0.0], [0.0, 0.3, 0.9], [1.1, 0.0, 0.0], [0.0, 0.0, 0.4, 0.0, 0.0], [0.0, 1.3]):
+        n = len(coefs) - 1
+        for seed in ([1] * n, [0] * n, [1, 0] * n, None):
+            cases.append({"fn": "completion", "coefs": [hexf(x) for x in coefs], "coef_type": "F", "seed": None if seed is None else seed[:n],
+                          "expect": "documented", "timeout": 120, "site": "infeasible", "kind": "zero-ended"})
     impl = run_impl(cases, timeout=3000)
     for c, r in zip(cases, impl):
         ctx.count(c, nontrivial=True, bucket="%s/%s/%s" % (c["site"], c.get("kind", c["fn"]), r.get("exc", "returned")))
